@@ -23,6 +23,12 @@ T = {
     'C08-1': ('C08', 'zero-length rule narrowed to treat-as-withdraw classes: a zero-length COMMUNITY etc. is decoded as a valid empty attribute', 'a zero-length attribute of a class without the flag', ['C08: bounded single-attribute-corruption (zero length)']),
     'C08-2': ('C08', 'cls.previous = data moved before the parse: a malformed block seen twice is served the earlier good collection', 'three-step history: good, malformed, same malformed again', ['C08/C19: deductive, clause final:0 / post:2 (cache invariant) of AttributeCollection.unpack']),
     'C08-3': ('C08', 'ORIGIN value 3 accepted (> 3 instead of > 2)', 'an UPDATE with ORIGIN = 3', ['C08/C02: deductive, clause raises:ValueError:0:if of Origin.from_packet (replayed)']),
+    'C07-1': ('C07', 'ADD-PATH receive loses the & SEND mask on the peer value', 'we receive, peer advertises receive-only for a family', ['C07: bounded open-pairs (RequirePath.setup is bounded only)']),
+    'C07-2': ('C07', 'RFC 9072 extended OPEN writes the non-extended length in front of the extended parameters', 'an OPEN with >= 255 bytes of optional parameters', ['C07: bounded rfc9072-long-open']),
+    'C07-3': ('C07', '2/6 test uses the negotiated hold time (min) instead of the received one', 'local hold-time 0 and peer hold time 1 or 2', ['C07: deductive, clauses post:2/post:3 of Negotiated.validate']),
+    'C20-1': ('C20', 'RISING->FALLING keeps the success count: DOWN after fewer than fall failures', 'rise >= 3, a failure after >= 2 successes in RISING', ['C20: deductive, clause post:11 (counter invariant) of loop.one; bounded histories']),
+    'C20-2': ('C20', 'no withdraw when stopped in INIT/RISING/FALLING', 'stop (SIGTERM / Ctrl-C) during a transient state', ['C20: deductive, clause final:0 of loop.sigterm_handler and post:0 of loop#main; bounded histories']),
+    'C20-3': ('C20', '--disabled-community ignored unless --community is set', 'disabled-community without community, reaching DOWN/DISABLED', ['C20: deductive, clause line:template of loop.exabgp#a; bounded histories']),
 }
 for sid, (pid, what, needs, caught) in T.items():
     d = os.path.join(ROOT, 'seeded', sid)
